@@ -92,11 +92,13 @@ def check_position(R, b, ctx, effs, t, where, seed_of):
                 len(apps), in_loop, after, every_path))
 
 
-def r_bracket(F, R, cat=None):
+def r_bracket(F, R, cat=None, only=None):
     cat = cat or Catalogue(F)
     n = 0
     for b in F.methods_of_trait("Push", "push"):
         if b.in_tests():
+            continue
+        if only and short(b.self_adt or "") not in only:
             continue
         imp = F.impl_by_key.get(b.owner.get("impl_key"))
         adt = b.self_adt
@@ -130,10 +132,12 @@ def r_bracket(F, R, cat=None):
                         where=where, detail="returns " + show(t))
     # push_symbols: (cursor before any write, cursor after the last write)
     for b in [x for x in F.bodies.values() if x.kind == "Fn" and x.name == "push_symbols"]:
+        if only and "HuffmanContainer" not in only:
+            continue
         n += 1
         R.saw(b)
         check_cursor_bracket(R, b)
-    R.floor("R-BRACKET", "bracket sites", n, 15)
+    R.floor("R-BRACKET", "bracket sites", n, 15 if not only else 1)
 
 
 def region_index_type(F, adt):
